@@ -40,6 +40,8 @@ DocText(l, r) == <<123, 34, 97, 34, 58>> \o l \o <<44, 34, 98, 34, 58>> \o r \o 
 NearVals == <<JInt(1), JNear(1, 1, 1), JNear(1, 1, 2), JNear(1, 1, -1), JNum(3, 10), JNear(3, 10, 1), JNear(3, 10, -2), JNear(-3, 10, 1),
               JNear(-1, 1, 1), JNum(3, 2), JNear(3, 2, 1),
               JArr(<<JInt(1)>>), JArr(<<JNear(1, 1, 1)>>), JArr(<<JNear(1, 1, 1), JInt(2)>>), JArr(<<JInt(1), JInt(2)>>),
+              \* magnitudes near the top of the double range: well separated (factors of 1.7 .. 10^16 apart), same sign and opposite signs
+              JBig(1, 308), JBig(17, 307), JBig(179, 306), JBig(1, 300), JBig(1, 292), JBig(-1, 308), JBig(-17, 307), JArr(<<JBig(1, 308)>>), JArr(<<JBig(17, 307)>>),
               MkObj(<<JMem(<<97>>, JNear(3, 10, 1))>>), MkObj(<<JMem(<<97>>, JNum(3, 10))>>), JStr(<<49>>), JNull>>
 (* both operands are the same node of the document: `a OP a`, `@ OP @` below a field *)
 SameText == <<cLBRACKET>> \o JoinWith([i \in 1..6 |-> <<97, cSPACE>> \o Ops[i] \o <<cSPACE, 97>>], <<cCOMMA, cSPACE>>) \o <<cRBRACKET>>
